@@ -108,6 +108,13 @@ func replayOne(id int, b *behaviour, engine string, base string) common.Result {
 	default:
 		fsc = fsc.WithDirMount(dir, "/")
 	}
+	if b.Mount != "rw" {
+		// the read-only directory also holds a dangling symbolic link (creating through it would create its target), and
+		// a WRITABLE re-mount of the same guest path is derived from the read-only configuration and thrown away: what was
+		// configured read-only stays read-only
+		_ = os.Symlink("t", filepath.Join(dir, "l"))
+		_ = fsc.WithDirMount(dir, "/")
+	}
 	before := hostSnapshot(dir)
 	env, err := wasix.New(ctx, engine, wazero.NewModuleConfig().WithFSConfig(fsc))
 	if err != nil {
@@ -229,6 +236,17 @@ func replayOne(id int, b *behaviour, engine string, base string) common.Result {
 			if now := hostSnapshot(dir); now != before {
 				fail("host-tree-changed", fmt.Sprintf("returned %s and the read-only mounted directory changed:\nbefore:\n%s\nafter:\n%s", got, before, now))
 				return res
+			}
+			if k == len(b.Hist)-1 {
+				// at the end of every history: creating through the dangling link (path_open with O_CREAT, following links)
+				for _, of := range []uint64{1, 1 | 8, 1 | 4} {
+					p, l := env.PutString(pPath, "l")
+					e, _ := env.Call("path_open", 3, 1, p, l, of, 1<<1, 0, 0, pRes) // rights: read only
+					if now := hostSnapshot(dir); now != before {
+						fail("host-tree-changed:via-dangling-link", fmt.Sprintf("path_open(l -> t, oflags=%d, follow) returned %s and the read-only mounted directory changed:\nbefore:\n%s\nafter:\n%s", of, wasix.Errno(e), before, now))
+						return res
+					}
+				}
 			}
 			prev = opName(o) + ";"
 			continue
